@@ -79,6 +79,17 @@ pub fn now_nanos() -> Option<u64> {
     controller().map(|c| c.now_nanos())
 }
 
+/// The controller's clock, or the system clock when no controller is installed.
+#[inline]
+pub fn wall_nanos() -> u64 {
+    now_nanos().unwrap_or_else(|| {
+        std::time::SystemTime::now()
+            .duration_since(std::time::UNIX_EPOCH)
+            .unwrap_or_default()
+            .as_nanos() as u64
+    })
+}
+
 #[inline]
 pub fn now_secs() -> Option<u64> {
     now_nanos().map(|n| n / 1_000_000_000)
